@@ -1,6 +1,7 @@
 import Driver.Basic
 import Driver.C35
 import Driver.C01
+import Driver.C03
 import Driver.C06
 import Driver.C07
 import Driver.C29
@@ -22,6 +23,7 @@ def step (line : String) : String :=
   match tokens line with
   | "C01" :: ts => stepC01 ts
   | "C02" :: ts => stepC02 ts
+  | "C03" :: ts => stepC03 ts
   | "C06" :: ts => stepC06 ts
   | "C07" :: ts => stepC07 ts
   | "C12" :: ts => stepC12 ts
